@@ -920,7 +920,9 @@ func runC10(env *lib.Env, rep *lib.Report) {
 	// (9) identifier shapes: underscores first / last / only, digits inside and last, a long one - as table, column
 	// and database name
 	// ... and names with capital letters (a name is kept as it was written)
-	for _, name := range []string{"_id", "_", "__x9", "a_", "a1_b2", "x9", "r2d2_", "_" + strings.Repeat("n", 70), "SalesDB", "X", "aB_c", "ID", "Zz9"} {
+	for _, name := range []string{"_id", "_", "__x9", "a_", "a1_b2", "x9", "r2d2_", "_" + strings.Repeat("n", 70), "SalesDB", "X", "aB_c", "ID", "Zz9",
+		// ... and names with letters beyond ASCII
+		"prénom", "élèves", "таблица", "名前", "ñ"} {
 		// UPDATE name SET name = 1, INSERT INTO name (name, name) VALUES .., SELECT name.name AS name FROM name name
 		{
 			g := &gen{}
